@@ -36,8 +36,14 @@ S8N16  == MS(0, 0, 8, 20, 16, 2561)
 S16N16 == MS(0, 0, 16, 5121, 16, 2561)   \* inside both
 S16bN16 == MS(0, 0, 16, 5122, 16, 2561)  \* differs from S16N16 in the source only
 P1S16  == MS(1, 0, 16, 5121, 0, 0)
+\* the longer prefix continues the shorter one with zero bits (20.0/16 in 20/8, 10.0/16 in 10/8):
+\* its network ADDRESS equals that of the shorter prefix, only the length tells them apart
+S16z     == MS(0, 0, 16, 5120, 0, 0)
+S16zN16z == MS(0, 0, 16, 5120, 16, 2560)
+S16zN8   == MS(0, 0, 16, 5120, 8, 10)     \* narrower than S8N8 in the source only
+S8N16z   == MS(0, 0, 8, 20, 16, 2560)     \* ... in the destination only
 S32N32 == MS(0, 0, 32, SRC, 32, H1)      \* two host addresses: no bit to ignore
-MatchS == {S8, S16, S16b, S8N8, S16N8, S8N16, S16N16, S16bN16, P1S16, S32N32}
+MatchS == {S8, S16, S16b, S8N8, S16N8, S8N16, S16N16, S16bN16, P1S16, S32N32, S16z, S16zN16z, S16zN8, S8N16z}
 MatchU == {ANY, P1, P2, DA, DB, P1A, P2A, N8, N16, N16b, P1N, A32, EX} \cup MatchS
 
 PktS(ip, dd, ns, na, ref, len) == [ip |-> ip, dd |-> dd, ns |-> ns, na |-> na, ref |-> ref,
@@ -51,8 +57,8 @@ X2B  == Pkt(2, 2, H1, 0, 1000)
 Y2A  == PktS(1, 1, SRC2, H1, 0, 66)    \* the reference frame from 20.2.0.9
 Y1B  == PktS(1, 2, SRC, H2, 0, 102)     \* 20.1.0.9 -> 10.2.0.1
 Y3C  == PktS(2, 1, SRC3, H3, 0, 202)    \* 21.0.0.9 -> 11.0.0.1
-PktU == {x \in {PktS(ip, dd, ns, na, ref, 64) : ip \in 1..2, dd \in 1..2, ns \in {SRC, SRC + 1, SRC2, SRC3},
-                                               na \in {H1, H1 + 1, H2, H3}, ref \in {0, 1}} :
+PktU == {x \in {PktS(ip, dd, ns, na, ref, 64) : ip \in 1..2, dd \in 1..2, ns \in {SRC, SRC + 1, SRC2, SRC3, SRC - 65536},
+                                               na \in {H1, H1 + 1, H2, H3, H1 - 65536}, ref \in {0, 1}} :
            x.ref = 1 => x.ns = SRC}
 
 \* ---- sanity of the match algebra against frame semantics (checked once)
@@ -73,6 +79,9 @@ ASSUME /\ Overlap(S16N8, S8N16) /\ ~Covers(S16N8, S8N16) /\ ~Covers(S8N16, S16N8
        /\ Covers(S8N8, S16N8) /\ Covers(S8N8, S8N16) /\ Covers(S16N8, S16N16) /\ Covers(S8N16, S16N16)
        /\ Overlap(S16, N16) /\ ~Covers(S16, N16) /\ ~Covers(N16, S16)
        /\ ~Overlap(S16N16, S16bN16) /\ ~Overlap(S16, S16b) /\ Covers(S16, EX) /\ Covers(S16N16, S32N32)
+       /\ Covers(S8N8, S16zN16z) /\ ~Covers(S16zN16z, S8N8) /\ ~Overlap(S16zN16z, S16N16)
+       /\ Covers(S8, S16z) /\ ~Covers(S16z, S8)
+       /\ Covers(S8N8, S16zN8) /\ ~Covers(S16zN8, S8N8) /\ Covers(S8N8, S8N16z) /\ ~Covers(S8N16z, S8N8)
 \* the reference frame (ref = 1) is the one the exact match names
 ASSUME \A x \in PktU : PktMatches(EX, x) => x.ns = SRC /\ x.na = H1 /\ x.ip = 1 /\ x.dd = 1
 
@@ -128,13 +137,14 @@ PktsNw    == {X1A, X1Ap, X1B, X2B}
 QueriesNw == {Q(N8, 0, 0), Q(ANY, 4, 0)}
 
 \* -- reduced alphabets: their whole transition graphs are replayed in the quick tier
+\* (some messages are spelled with junk in their wildcarded fields: same graph, other bytes)
 ModsCmdQ ==
-  {AddF(P1, 5, "o3", 0, 0, 1, 0), AddF(DA, 5, "o4", 0, 0, 1, 1), AddF(P1A, 5, "o3", 0, 0, 0, 1),
-   AddF(P1A, 7, "o34", 0, 0, 1, 0), AddF(P1, 5, "o4", 0, 0, 0, 1),
-   ModF(P1, 5, "o4"), ModF(ANY, 5, "none"), ModsF(P1A, 5, "o34"), ModsF(P1, 7, "o3"),
-   DelF(P1, 0), DelF(ANY, 4), DelsF(P1A, 5, 0), DelsF(P1, 7, 0), DelsF(DA, 5, 3),
+  {AddF(P1, 5, "o3", 0, 0, 1, 0), Sp(AddF(DA, 5, "o4", 0, 0, 1, 1), 4), AddF(P1A, 5, "o3", 0, 0, 0, 1),
+   AddF(P1A, 7, "o34", 0, 0, 1, 0), Sp(AddF(P1, 5, "o4", 0, 0, 0, 1), 4),
+   ModF(P1, 5, "o4"), Sp(ModF(ANY, 5, "none"), 4), Sp(ModsF(P1A, 5, "o34"), 4), ModsF(P1, 7, "o3"),
+   Sp(DelF(P1, 0), 4), DelF(ANY, 4), Sp(DelsF(P1A, 5, 0), 4), DelsF(P1, 7, 0), DelsF(DA, 5, 3),
    Emerg(AddF(P1, 5, "o3", 0, 0, 0, 0))}
-QueriesCmdQ == {Q(P1, 3, 0)}
+QueriesCmdQ == {Q(P1, 3, 4)}
 \* one entry, every shape of timeout pair; two entries, mixed reasons in one sweep
 ModsTime1 ==
   {AddF(P1, 5, "o3", i, h, 1, 0) : <<i, h>> \in {<<1, 0>>, <<0, 2>>, <<2, 3>>, <<3, 2>>}}
@@ -144,11 +154,12 @@ ModsTime2 ==
   {AddF(P1, 5, "o3", 2, 0, 1, 0), AddF(P1A, 7, "o4", 2, 3, 1, 0), AddF(DA, 5, "o3", 0, 3, 1, 0)}
 PktsTime2 == {X1A}
 ModsNwQ ==
-  {AddF(N8, 5, "o3", 0, 0, 1, 0), AddF(N16, 5, "o3", 0, 0, 1, 1), AddF(N16b, 5, "o4", 0, 0, 1, 1),
-   AddF(EX, 1, "o4", 0, 0, 1, 0), AddF(A32, 7, "o34", 0, 0, 1, 0), AddF(P1N, 5, "o4", 0, 0, 0, 1),
-   ModF(N8, 5, "o34"), ModsF(EX, 1, "o3"), DelF(N16, 0), DelF(A32, 0), DelsF(A32, 7, 0), DelF(N8, 4)}
+  {Sp(AddF(N8, 5, "o3", 0, 0, 1, 0), 4), AddF(N16, 5, "o3", 0, 0, 1, 1), AddF(N16b, 5, "o4", 0, 0, 1, 1),
+   AddF(EX, 1, "o4", 0, 0, 1, 0), Sp(AddF(A32, 7, "o34", 0, 0, 1, 0), 4), AddF(P1N, 5, "o4", 0, 0, 0, 1),
+   Sp(ModF(N8, 5, "o34"), 4), ModsF(EX, 1, "o3"), Sp(DelF(N16, 0), 5), DelF(A32, 0), DelsF(A32, 7, 0),
+   DelF(N8, 4)}
 PktsNwQ == {X1A, X1Ap, X1B}
-QueriesNwQ == {Q(N8, 0, 0)}
+QueriesNwQ == {Q(N8, 0, 4)}
 
 \* -- alphabet "sd": nw_src x nw_dst prefixes, every message in several spellings
 ModsSd ==
@@ -160,11 +171,13 @@ ModsSd ==
   \cup {Sp(ModF(S8N8, 5, "o34"), 3), ModF(S16N8, 5, "o4"), Sp(ModF(S16, 5, "none"), 6)}
   \cup {Sp(ModsF(S16N16, 5, "o34"), s) : s \in {0, 3}} \cup {Sp(ModsF(S8N16, 5, "o3"), 1)}
   \cup {Sp(DelF(S8N8, 0), 3), DelF(S16N8, 0), Sp(DelF(S8N16, 0), 7), Sp(DelF(S16, 0), 2),
-        Sp(DelF(N16, 0), 1), Sp(DelF(S8N8, 4), 3), Sp(DelF(ANY, 3), 4)}
+        Sp(DelF(N16, 0), 1), Sp(DelF(S8N8, 4), 3), Sp(DelF(ANY, 3), 4), Sp(DelF(S16zN16z, 0), 3),
+        Sp(ModF(S16z, 5, "o4"), 2), Sp(DelF(S16zN8, 0), 3), Sp(DelF(S8N16z, 4), 1)}
   \cup {Sp(DelsF(S16N16, 5, 0), s) : s \in {0, 3, 4}}
   \cup {Sp(DelsF(S8N16, 5, 3), 3), Sp(DelsF(S16, 7, 0), 2)}
 PktsSd    == {X1A, Y2A, Y1B, Y3C}
-QueriesSd == {Q(S8N8, 0, 3), Q(S16N8, 3, 2), Q(ANY, 0, 4), Q(S16N16, 0, 0)}
+QueriesSd == {Q(S8N8, 0, 3), Q(S16N8, 3, 2), Q(ANY, 0, 4), Q(S16N16, 0, 0), Q(S16zN16z, 0, 3), Q(S8N16z, 0, 1),
+              Q(S16zN8, 0, 2)}
 \* (reduced: its whole transition graph is replayed in the quick tier)
 ModsSdQ ==
   {Sp(AddF(S16N16, 5, "o3", 0, 0, 1, 0), 3), AddF(S16N16, 5, "o4", 0, 0, 0, 0),
@@ -173,9 +186,10 @@ ModsSdQ ==
    Sp(AddF(S16, 7, "o4", 0, 0, 1, 0), 6),
    Sp(ModF(S16N8, 5, "o34"), 3), Sp(ModsF(S16N16, 5, "none"), 3), ModsF(S8N16, 5, "o4"),
    Sp(DelF(S8N8, 0), 3), Sp(DelF(S8N16, 4), 5), Sp(DelF(S16, 0), 2),
-   Sp(DelsF(S16N16, 5, 0), 3), DelsF(S8N8, 5, 0), Sp(DelsF(S16N8, 5, 3), 7)}
+   Sp(DelsF(S16N16, 5, 0), 3), DelsF(S8N8, 5, 0), Sp(DelsF(S16N8, 5, 3), 7),
+   Sp(DelF(S16zN8, 0), 3)}
 PktsSdQ    == {X1A, Y2A, Y1B}
-QueriesSdQ == {Q(S8N8, 0, 3), Q(S16N16, 4, 6)}
+QueriesSdQ == {Q(S8N8, 0, 3), Q(S16N16, 4, 6), Q(S8N16z, 0, 3)}
 
 \* -- small alphabet for all paths of depth 3
 ModsPaths ==
